@@ -31,7 +31,7 @@ three affected clauses are refuted by concrete witnesses at the end.
 | a key touched more recently than `size` other distinct keys is never evicted | `ttl_recent_not_evicted`, `ttl_recent_after_touch` |
 | the redis-backed cache agrees with the in-memory one (positive ttls, keep-ttl on live keys, off deadlines, below the size bound) | `ttl_mem_rds_agree`, `ttl_mem_rds_agree_keys` (size clause on the history), `ttl_mem_rds_step`; redis corners: `rds_corner_cases`; Clear: `ttl_rds_clear_all_pages` |
 | concurrent callers racing on one key: remove-after-get succeeds for at most one | `ttl_consume_once` (any call sequence without a Set of k), `ttl_consume_once_concurrent` / `_rds` (interleavings; assumption `AtomicCalls`, discharged for the regenerated facts by `tie_atomic_calls`) |
-| quantifier: any size ≥ 0, default ttl ≤ 0 or > 0, clock advances | all of the above quantify over `size`, `dttl`, `.tick` |
+| quantifier: any keys, any size ≥ 0, default ttl ≤ 0 or > 0, clock advances | all of the above quantify over `Key`, `Val`, `size`, `dttl`, `.tick`; `ttl_other_key_untouched` (keys matter by identity only); cancelled contexts: `rds_cancelled_changes_nothing` |
 
 Only monitor-checked / assumed (no theorem): that the Go methods ARE the model's steps (correspondence + facts);
 redis itself (the `Rds` model and the fake are hand-written); atomicity of a call (`AtomicCalls`: lock facts, GETDEL);
@@ -417,6 +417,27 @@ theorem rds_corner_cases (now now' : Int) (k : Key) (v : Val) (st : List REntry)
 example : AdmissibleK Cfg.fixed [1, 2] (Sys.new 1700000000500 2 5)
     [.set 1 5 ⟨some 3, false, false⟩, .set 2 6 ⟨none, true, false⟩, .set 1 7 ⟨some (-4), false, true⟩,
      .get 1 ⟨false, some 2⟩, .remove 2, .get 2 ⟨false, none⟩] := admissibleKB_sound _ _ (by decide)
+
+/-! ### keys are independent; cancelled contexts -/
+
+/-- Keys only matter by identity (long keys with common prefixes, the empty key, keys full of glob characters are just
+    keys): a call addressing another key can never put anything under `k` — if `k` is indexed afterwards it was indexed
+    before with the very same node (value and deadline). In particular a key that was never set is never served. -/
+theorem ttl_other_key_untouched (c : Cfg) (m : Mem) (hwf : WF m) (now : Int) (op : Op) (k : Key) (n : Node)
+    (hop : opKey op ≠ some k) (h : (m.step c now op).1.lookup k = some n) : m.lookup k = some n :=
+  lookup_step_other hwf hop h
+
+/-- A call issued with an already cancelled context (`Sys.stepCancelled`): the redis-backed cache changes nothing and
+    Set / Get / Remove answer with the error (so a Remove that returned nil was carried out); the in-memory cache
+    ignores the context and behaves exactly as for a live one. -/
+theorem rds_cancelled_changes_nothing (c : Cfg) (s : Sys) (op : Op) :
+    (Sys.stepCancelled c s op).1.rds = s.rds ∧
+    (Sys.stepCancelled c s op).1.mem = (Sys.step c s op).1.mem ∧
+    (Sys.stepCancelled c s op).2.1 = (Sys.step c s op).2.1 ∧
+    (∀ k v o, op = .set k v o → (Sys.stepCancelled c s op).2.2 = .err) ∧
+    (∀ k o, op = .get k o → (Sys.stepCancelled c s op).2.2 = .err) ∧
+    (∀ k, op = .remove k → (Sys.stepCancelled c s op).2.2 = .err) := by
+  cases op <;> simp [Sys.stepCancelled, Sys.step]
 
 /-! ### Clear on redis: the SCAN iteration must be followed to the end -/
 
